@@ -7,6 +7,8 @@
 
 #ifdef CHESSPLUSPLUS_VERIF
 
+#include <atomic>
+
 namespace engine
 {
 namespace verif
@@ -24,11 +26,35 @@ enum Point : int
     UCI_LINE,         // Uci::loop read a line                  (a = const char*)
     UCI_GO_SPAWNED,   // search thread detached
     THREAD_START,     // start_searching() entered
-    THREAD_END        // start_searching() about to return
+    THREAD_END,       // start_searching() about to return
+    FLAG_LOAD,        // about to read the stop flag
+    FLAG_STORE        // about to write the stop flag               (a = pointer to the new value)
 };
 
 using PointCallback = void (*)(int point, void* search, const void* a, const void* b);
 inline PointCallback point_cb = nullptr;
+
+// Drop-in for std::atomic<bool> that announces every access, so that a scheduler can
+// preempt between a read and a later write of the flag.
+class HookedAtomicBool
+{
+  public:
+    HookedAtomicBool(bool v = false) : _v(v) {}
+    operator bool() const
+    {
+        if (point_cb) point_cb(FLAG_LOAD, nullptr, nullptr, nullptr);
+        return _v.load();
+    }
+    HookedAtomicBool& operator=(bool v)
+    {
+        if (point_cb) point_cb(FLAG_STORE, nullptr, &v, nullptr);
+        _v.store(v);
+        return *this;
+    }
+
+  private:
+    std::atomic<bool> _v;
+};
 
 struct ScopeExit
 {
